@@ -339,6 +339,11 @@ func scenarioOverride(c *vrun.Ctx) {
 			if problem != "" {
 				c.SetCase(pr.path + " " + strings.Join(hist, " "))
 				c.Violation("C17/override/"+kind+"/"+pr.path, problem+" | history "+strings.Join(hist, " "), nil)
+				if kind == "file-holds-wrong-value" || kind == "file-does-not-load" {
+					// the same observation read as C18: what an accepted update saves is what the next start loads,
+					// i.e. the saved values and nothing that only the command line said
+					c.Violation("C18/override/"+kind+"/"+pr.path, problem+" | history "+strings.Join(hist, " "), nil)
+				}
 			}
 		}
 	}
